@@ -92,6 +92,10 @@ def run(ctx):
     # (1d) sibling cross-check: row clearing and column clearing are transposes of each other
     siblings_agree(ctx, "T4-siblings-agree", M + "clear_later_rows_in_place", M + "clear_later_cols_in_place", "row step ~ column step", compare_fields=True)
     divisor_chain(ctx, g, ai)
+    ctx.clauses.append("gcdx is extended Euclid: r*A + s*B = +-gcd, t*A + u*B = 0, r*u - s*t = +-1 for every input (loop invariant decided on sampled states)")
+    gx = ctx.body(M + "gcdx")
+    ctx.scan([gx])
+    euclid_contract(ctx, "T7-euclid-contract", gx, g)
     # (2) ascending
     sorts = [(bi, t) for bi, t in ai.calls("slice::<impl [T]>::sort")]
     rets_assign = [(bi, si, norm(ai.rv_origin(s["rv"]), g)) for bi, si, s in ai.assigns() if s["place"]["l"] == 0 and not s["place"]["p"]]
